@@ -17,7 +17,8 @@ META = {
     "outputs are link flows in the network's link order followed by origin flows in origin order; every "
     "reported link flow component == rho v lam of that input segment; every reported origin flow q_o "
     "satisfies w+ == w + T (d - q_o) with the w+ the step produced; the inflow the density update of the fed "
-    "link used == entering reported last-segment flows + q_o",
+    "link used == entering reported last-segment flows + q_o"
+    "; flows are reported in the order of the states (w[i], q_o[i] the same origin); one network stepped with the positive_init options (states = max(0, argument)); element names that do not sort like the attachment order",
     "explanation": "The flows are recomputed after the step by a separate code path; both the step and the "
     "recomputation are interpreted on the same network and the identities are decided by normal form, for "
     "all states at once.",
